@@ -231,17 +231,32 @@ func sameIndexRefreshRule(P *Program, R *Report, rule string) {
 		return strings.ReplaceAll(t, "<revocation.Witness>.SignedAccumulator.Accumulator", "ourAcc")
 	}
 	n := 0
-	allInstrs(fn, func(i ssa.Instruction) {
+	replacesPointer := func(i ssa.Instruction) bool {
 		st, ok := i.(*ssa.Store)
 		if !ok || desc(st.Addr) != "<revocation.Witness>.SignedAccumulator" {
-			return
+			return false
 		}
-		if _, isPtr := st.Val.Type().Underlying().(*types.Pointer); !isPtr {
+		_, isPtr := st.Val.Type().Underlying().(*types.Pointer)
+		return isPtr
+	}
+	allInstrs(fn, func(i ssa.Instruction) {
+		site := replacesPointer(i)
+		// the commit moved into a helper of the package: the call is the site
+		if c, isCall := i.(*ssa.Call); isCall && !site {
+			if g := c.Call.StaticCallee(); g != nil && g != fn && inModuleFn(g) && g.Blocks != nil {
+				allInstrs(g, func(j ssa.Instruction) {
+					if replacesPointer(j) {
+						site = true
+					}
+				})
+			}
+		}
+		if !site {
 			return
 		}
 		n++
-		q := (&MustPass{P: P, NoInterproc: true, Match: func(a Atom) bool { return indexDiffers.MatchString(canon(a)) }}).MustReach(fn, st)
-		R.decide(rule, kWitUpdate+":pointer-replaced-only-when-index-changed", "the witness' SignedAccumulator pointer is replaced only on paths where the accumulator index changed (same index: the pointee is overwritten, so that a prepared commitment sharing it reads the new signature and time)", q.Holds, q.Path, P.Pos(st.Pos()))
+		q := (&MustPass{P: P, NoInterproc: true, Match: func(a Atom) bool { return indexDiffers.MatchString(canon(a)) }}).MustReach(fn, i)
+		R.decide(rule, kWitUpdate+":pointer-replaced-only-when-index-changed", "the witness' SignedAccumulator pointer is replaced only on paths where the accumulator index changed (same index: the pointee is overwritten, so that a prepared commitment sharing it reads the new signature and time)", q.Holds, q.Path, P.Pos(i.Pos()))
 	})
 	R.decide(rule, kWitUpdate+":pointer-stores", "stores of a new SignedAccumulator pointer into the witness were found (>= 1)", n >= 1, fmt.Sprintf("%d", n), P.Pos(fn.Pos()))
 }
